@@ -600,7 +600,7 @@ def write_replay(prop, kind, what, d, extra=None):
     }
     if d.get("driver") == "borrow_probe":
         m = re.match(r"\[(\w+):([\w,]+)\]", d.get("desc", ""))
-        body["replay_cmd"] = ("python3 %s one %s %s" % (os.path.join(VERIF, "tools", "borrow_probe.py"), m.group(1), m.group(2).replace(",", " "))) if m and m.group(1) in ("ref", "str", "slice", "fill", "vec", "string", "box", "vecd", "stringd", "boxd") \
+        body["replay_cmd"] = ("python3 %s one %s %s" % (os.path.join(VERIF, "tools", "borrow_probe.py"), m.group(1), m.group(2).replace(",", " "))) if m \
             else "python3 %s trace %s /dev/stdout | %s" % (os.path.join(VERIF, "tools", "borrow_probe.py"), d.get("maxops"), os.path.join(OCAML_BUILD, "borrow_check"))
     if extra:
         body.update(extra)
